@@ -254,6 +254,10 @@ def run_solve_t(Model, case):
             before_fault=case.get('before_fault'), after_fault=case.get('after_fault'))
     if case.get('check') is not None:
         m.check = list(case['check'])
+    if case.get('endogenous') is not None:
+        # the instance's own list of endogenous variables (what an offset copies) need not cover everything the passes write or
+        # everything that is watched for convergence: a watched variable is read afresh after every pass all the same
+        m.endogenous = list(case['endogenous'])
     m.__dict__['v_write_mode'] = case.get('write_mode')
     for name in ('A', 'B'):
         m.__dict__['_' + name][:] = 0.0
